@@ -24,3 +24,9 @@ package crypto
 //@   pure
 //@   requires key != nil
 //@   ensures seq(bs) == pk_bytes(ref(key)) && len(bs) == 65
+
+//@ smt all (declare-fun sha3 (BSeq) BSeq)
+//@ func SHA3Sum256(m) (h)
+//@   trusted
+//@   pure
+//@   ensures seq(h) == sha3(seq(m)) && len(h) == 32 && h != nil
